@@ -170,13 +170,14 @@ def jobs(tier):
             add(T=3, CALLS=2, KEYS=2, FSUSP=1, ms=ms, KEYSPACE=2)
             add(T=2, CALLS=3, KEYS=3, FSUSP=1, ms=ms, KEYSPACE=3)
             add(T=3, CALLS=1, KEYS=3, FSUSP=2, ms=ms, KEYSPACE=3, K=2)
+            add(T=4, CALLS=1, KEYS=2, FSUSP=1, ms=ms, KEYSPACE=2)
     return J
 
 
 BOUNDS = {
     "quick": "all interleavings of 2 tasks x 2 calls and 3 tasks x 1 call over 2 keys (key plan chosen by symbolic selectors), wrapped function suspending 1..2 times, maxsize None/1/2, a cache_clear or cache_discard issued by one task before its x-th call, the last task cancelled at its k-th suspension (k<=2); invariants checked after every scheduler step, sequential behaviour re-checked at quiescence",
-    "thorough": "additionally 3 tasks x 2 calls, 2 tasks x 3 calls over 3 keys, 3 tasks with cancellation",
+    "thorough": "additionally 3 tasks x 2 calls, 2 tasks x 3 calls over 3 keys, 3 tasks with cancellation, 4 tasks x 1 call",
 }
-OUTSIDE = ["4 tasks; 3 calls each for 3+ tasks", "full C10 equivalence at quiescence is replaced by a hit/miss/identity probe of every key"]
+OUTSIDE = ["4 tasks with more than one call each; 3 calls each for 3+ tasks", "full C10 equivalence at quiescence is replaced by a hit/miss/identity probe of every key"]
 NONTRIVIAL_RULE = ">=1 context switch and >=2 completed calls in the schedule"
 ASSUMPTIONS = ["scheduler as in C09; statistics are sampled after every scheduler step (between any two suspension points of any task)"]
